@@ -193,6 +193,18 @@ func cmdCheck(args []string) {
 			seen[n] = true
 			matched++
 			vc := p.VerifyFunction(u, p.funcs[n])
+			{
+				// a contract clause tagged with OTHER properties only is decided by the check of one of those
+				// properties, provided that check targets this function; here it is only assumed
+				var kept []*Oblig
+				for _, ob := range vc.obligs {
+					if len(ob.Props) > 0 && !hasString(ob.Props, id) && decidedElsewhere(props, ob, n) {
+						continue
+					}
+					kept = append(kept, ob)
+				}
+				vc.obligs = kept
+			}
 			if keep != nil {
 				var kept []*Oblig
 				for _, ob := range vc.obligs {
@@ -567,4 +579,40 @@ func (pc *PropConfig) evidenceLevel() string {
 		return pc.Level
 	}
 	return "proof"
+}
+
+func hasString(xs []string, x string) bool {
+	for _, y := range xs {
+		if y == x {
+			return true
+		}
+	}
+	return false
+}
+
+// decidedElsewhere: some property the obligation is tagged with has a contract target that matches the
+// function (and does not filter the obligation's kind away).
+func decidedElsewhere(props map[string]*PropConfig, ob *Oblig, fn string) bool {
+	for _, q := range ob.Props {
+		pc := props[q]
+		if pc == nil {
+			continue
+		}
+		for _, tg := range pc.Targets {
+			if tg.Mode == "baseline" {
+				continue
+			}
+			rx, err := regexp.Compile(tg.Fn)
+			if err != nil || !rx.MatchString(fn) {
+				continue
+			}
+			if tg.Kinds != "" {
+				if k, err := regexp.Compile(tg.Kinds); err != nil || !k.MatchString(ob.Kind) {
+					continue
+				}
+			}
+			return true
+		}
+	}
+	return false
 }
